@@ -24,13 +24,25 @@ type SrvOpt struct {
 	Auth    bool
 	Flush   bool
 	Debug   int
+	NoConnOps bool // the implementation has FidDestroy but neither ConnOpened nor ConnClosed (like the library's own Fsrv)
+}
+
+// fsNoConn shows the framework the request and fid operations of a scripted
+// implementation and nothing else.
+type fsNoConn struct {
+	go9p.SrvReqOps
+	go9p.SrvFidOps
 }
 
 func NewSrvH(fs *FS, o SrvOpt) *SrvH {
 	s := &go9p.Srv{Msize: o.Msize, Dotu: o.Dotu, Maxpend: o.Maxpend, Debuglevel: o.Debug}
 	s.Id = "srv"
 	s.Upool = newUsers()
-	if !s.Start(fs.ops(o.Auth, o.Flush)) {
+	var ops interface{} = fs.ops(o.Auth, o.Flush)
+	if o.NoConnOps {
+		ops = fsNoConn{fs, fs}
+	}
+	if !s.Start(ops) {
 		panic("Srv.Start refused the scripted implementation")
 	}
 	return &SrvH{Srv: s, FS: fs}
